@@ -23,6 +23,17 @@ package server
 //	I6 a request naming a stale leader / epoch is refused (FailedPrecondition)
 //	   and changes nothing; no ISR change is applied under another (leader, epoch)
 //	   than the one it names
+//
+// The partition OBJECT behind a stream is not stable: PauseStream closes it and
+// the resume replaces it by a new object built from the replicated record
+// (metadataAPI.ResumePartition -> replacePartition).  Programs therefore also
+// contain P (PauseStream through the metadata API) and Q (RESUME_STREAM proposed
+// through applyOperation with the real precondition function) between the
+// report / ISR operations; the monitor follows the object (the log listener
+// re-reads it at every RESUME_STREAM entry) and keeps its whole memory (epochs,
+// leader per epoch, reports of the window) across the replacement, so I1-I6 —
+// in particular the quorum against the in-sync followers AS OF THE CHANGE — span
+// pause and resume.
 
 import (
 	"context"
@@ -114,14 +125,14 @@ func (d c07Digest) outOfSync() []string {
 // ---------------------------------------------------------------- ops
 
 type c07Op struct {
-	Kind string // R report, S shrink, E expand, X more than the timeout passes without a report, G a gap of about the timeout (real-timer profile only), L controller loses leadership
+	Kind string // R report, S shrink, E expand, X more than the timeout passes without a report, G a gap of about the timeout (real-timer profile only), L controller loses leadership, P the stream is paused, Q the stream is resumed (the partition object is replaced), PQ = P then Q
 	Who  string // role, resolved against the state when the op runs: f0..f3 k-th in-sync follower, fl last in-sync follower, o0,o1 k-th out-of-sync replica, L the leader, U an unknown id
 	Pair string // cur | staleEpoch | staleLeader | prevPair
 }
 
 func (o c07Op) String() string {
 	switch o.Kind {
-	case "X", "L", "G":
+	case "X", "L", "G", "P", "Q", "PQ":
 		return o.Kind
 	}
 	if o.Pair == "" || o.Pair == "cur" {
@@ -220,6 +231,10 @@ func (e *c07Env) Receive(l *RaftLog) {
 		stream = op.ChangeLeaderOp.Stream
 	case proto.Op_DELETE_STREAM:
 		stream = op.DeleteStreamOp.Stream
+	case proto.Op_PAUSE_STREAM:
+		stream = op.PauseStreamOp.Stream
+	case proto.Op_RESUME_STREAM:
+		stream = op.ResumeStreamOp.Stream
 	default:
 		return
 	}
@@ -275,6 +290,7 @@ type c07Part struct {
 	// coverage
 	nChanges, nISRChanges, nStaleRefused, nReportsOK, nExpiredArmed, nUnarmed, nLost, nSkipped int
 	nChangeFromCarry                                                                           int
+	nPauses, nReplaced, nResumeInFlight                                                        int // pause entries, resume entries that replaced the partition object, of those: with reports of the current pair pending in the code
 	pruned                                                                                     bool
 }
 
@@ -373,6 +389,43 @@ func (pt *c07Part) onLog(index uint64, op *proto.RaftLog) {
 		return
 	}
 	if !pt.created || pt.p == nil || pt.deleted {
+		return
+	}
+	if op.Op == proto.Op_PAUSE_STREAM || op.Op == proto.Op_RESUME_STREAM {
+		// Not a leadership operation: the partition is closed resp. its object is
+		// replaced by one rebuilt from the replicated record.  Follow the object
+		// and require that the replicated leadership state went through unchanged.
+		prev, cause := pt.last, "PauseStream"
+		if op.Op == proto.Op_RESUME_STREAM {
+			cause = "ResumeStream"
+			p := pt.env.srv.metadata.GetPartition(pt.stream, 0)
+			if p == nil {
+				pt.fail("C07:lifecycle:resume:partition-lost", fmt.Sprintf("entry #%d (RESUME_STREAM): the partition of %s is gone (state before %s)", index, pt.stream, prev), true)
+				return
+			}
+			if p != pt.p {
+				pt.p = p
+				pt.nReplaced++
+				rep.Count("resume_replaced_partition_object", 1)
+			}
+		} else {
+			pt.nPauses++
+		}
+		d := c07Read(pt.p)
+		pt.last = d
+		pt.phaseStates = append(pt.phaseStates, d)
+		pt.tr("log#%d %s -> %s", index, cause, d)
+		if pt.failed {
+			return
+		}
+		if d.Leader != prev.Leader || d.LeaderEpoch != prev.LeaderEpoch {
+			pt.fail("C07:I5:leader-changed-by-"+cause, fmt.Sprintf("entry #%d (%s) changed leader/epoch from (%s,%d) to (%s,%d) without a leader change decided by reports", index, op.Op, prev.Leader, prev.LeaderEpoch, d.Leader, d.LeaderEpoch), true)
+			return
+		}
+		if d.Epoch != prev.Epoch || strings.Join(d.ISR, ",") != strings.Join(prev.ISR, ",") || strings.Join(d.Replicas, ",") != strings.Join(prev.Replicas, ",") {
+			pt.fail("C07:lifecycle:"+cause+":isr-or-epoch-changed", fmt.Sprintf("entry #%d (%s) changed the replicated leadership state from %s to %s (replicas %v -> %v)", index, op.Op, prev, d, prev.Replicas, d.Replicas), false)
+		}
+		pt.observe(d, cause)
 		return
 	}
 	pt.entries++
@@ -674,8 +727,11 @@ func (pt *c07Part) pairFor(d c07Digest, kind string) (c07Pair, bool) {
 // profile: really wait.  Returns the boundary kind.
 func (pt *c07Part) expire() string {
 	m := pt.env.srv.metadata
+	pt.mu.Lock()
+	cur := pt.p
+	pt.mu.Unlock()
 	m.mu.Lock()
-	fo := m.partitionFailovers[pt.p]
+	fo := m.partitionFailovers[cur]
 	m.mu.Unlock()
 	if !pt.env.real {
 		if fo == nil {
@@ -710,13 +766,86 @@ func (pt *c07Part) expire() string {
 		gone := vfWait(3*time.Second, func() bool {
 			m.mu.Lock()
 			defer m.mu.Unlock()
-			return m.partitionFailovers[pt.p] != fo
+			return m.partitionFailovers[cur] != fo
 		})
 		if !gone {
 			pt.env.rep.Count("real_expiry_entry_still_present", 1)
 		}
 	}
 	return kind
+}
+
+// pauseResume pauses the stream through the metadata API (k == "P") or
+// proposes RESUME_STREAM the way metadataAPI.ResumeStream does (k == "Q":
+// applyOperation with checkResumeStreamPreconditions; the API's own best-effort
+// wait for the partition leader to answer a status request is left out, the
+// leader is a phantom id).  Neither is a boundary of the witness window: the
+// timeout has not passed and the leader epoch is the same, so reports made
+// before still count for the model.  (If the code forgets them at the
+// replacement it merely needs more reports than the model allows.)
+func (pt *c07Part) pauseResume(k string) {
+	e := pt.env
+	m := e.srv.metadata
+	pt.mu.Lock()
+	d0 := c07Read(pt.p)
+	cur := pt.p
+	n0 := pt.nReplaced
+	pt.mu.Unlock()
+	inFlight := false
+	if k == "Q" {
+		m.mu.Lock()
+		fo := m.partitionFailovers[cur]
+		m.mu.Unlock()
+		if fo != nil {
+			fo.mu.Lock()
+			inFlight = len(fo.witnesses) > 0 && fo.generation == d0.LeaderEpoch
+			fo.mu.Unlock()
+		}
+	}
+	var err error
+	for attempt := 0; attempt < 3; attempt++ {
+		ctx, cancel := c07Ctx()
+		if k == "P" {
+			err = nil
+			if st := m.PauseStream(ctx, &proto.PauseStreamOp{Stream: pt.stream}); st != nil {
+				err = st.Err()
+			}
+			cancel()
+			if err == nil || cur.IsPaused() {
+				err = nil
+				break
+			}
+		} else {
+			var fut interface{ Error() error }
+			fut, err = e.srv.getRaft().applyOperation(ctx, &proto.RaftLog{Op: proto.Op_RESUME_STREAM,
+				ResumeStreamOp: &proto.ResumeStreamOp{Stream: pt.stream, Partitions: []int32{0}}}, m.checkResumeStreamPreconditions)
+			if err == nil {
+				err = fut.Error()
+			}
+			cancel()
+			if p := m.GetPartition(pt.stream, 0); err == nil || (p != nil && !p.IsPaused()) {
+				err = nil
+				break
+			}
+		}
+		e.rep.Count("raft_future_errors", 1) // see newPart
+	}
+	pt.mu.Lock()
+	defer pt.mu.Unlock()
+	d1 := c07Read(pt.p)
+	name := map[string]string{"P": "PauseStream", "Q": "ResumeStream"}[k]
+	if err != nil {
+		pt.tr("%s: %s failed: %v", k, name, err)
+		e.rep.Count("calls_"+k+"_failed", 1)
+	} else {
+		pt.tr("%s %s -> %s", k, name, d1)
+		e.rep.Count("calls_"+k, 1)
+		if k == "Q" && pt.nReplaced > n0 && inFlight {
+			pt.nResumeInFlight++
+			e.rep.Count("resume_with_reports_of_current_pair_pending", 1)
+		}
+	}
+	pt.observe(d1, name)
 }
 
 // exec runs one op of a sequential program.  It returns false if the role of
@@ -753,6 +882,12 @@ func (pt *c07Part) exec(op c07Op) bool {
 		pt.mu.Lock()
 		pt.tr("G gap of about the timeout")
 		pt.mu.Unlock()
+		return true
+	case "P", "Q", "PQ":
+		pt.mu.Unlock()
+		for _, k := range map[string][]string{"P": {"P"}, "Q": {"Q"}, "PQ": {"P", "Q"}}[op.Kind] {
+			pt.pauseResume(k)
+		}
 		return true
 	case "L":
 		pt.bounds = append(pt.bounds, c07Boundary{pt.seq, "lost"})
@@ -860,6 +995,7 @@ type c07Case struct {
 type c07Outcome struct {
 	changes, isrChanges, staleRefused, reportsOK, expired, unarmed, lost, skipped int
 	pruned, failed                                                              bool
+	pauses, replaced, resumeInFlight                                            int
 }
 
 // run executes one program on a fresh stream.  prune: stop (and report the
@@ -885,7 +1021,7 @@ func (e *c07Env) run(cs c07Case, prune bool) (c07Outcome, error) {
 	e.dropPart(pt)
 	pt.mu.Lock()
 	defer pt.mu.Unlock()
-	return c07Outcome{pt.nChanges, pt.nISRChanges, pt.nStaleRefused, pt.nReportsOK, pt.nExpiredArmed, pt.nUnarmed, pt.nLost, pt.nSkipped, pt.pruned, pt.failed}, nil
+	return c07Outcome{pt.nChanges, pt.nISRChanges, pt.nStaleRefused, pt.nReportsOK, pt.nExpiredArmed, pt.nUnarmed, pt.nLost, pt.nSkipped, pt.pruned, pt.failed, pt.nPauses, pt.nReplaced, pt.nResumeInFlight}, nil
 }
 
 func (o c07Outcome) account(rep *kit.Report, sig string) {
@@ -900,6 +1036,13 @@ func (o c07Outcome) account(rep *kit.Report, sig string) {
 	rep.Count("controller_leadership_losses", int64(o.lost))
 	rep.Count("ops_skipped_unresolvable_role", int64(o.skipped))
 	rep.Count("reports_accepted", int64(o.reportsOK))
+	rep.Count("pause_entries", int64(o.pauses))
+	if o.replaced > 0 {
+		rep.Count("cases_with_partition_object_replaced", 1)
+		if o.changes > 0 {
+			rep.Count("cases_with_partition_object_replaced_and_leader_change", 1)
+		}
+	}
 	if o.changes > 0 {
 		rep.Count("cases_with_leader_change", 1)
 	}
